@@ -20,7 +20,7 @@
    With both switches true the last two restrictions vanish: that is the property as stated. *)
 From RichModel Require Import Prelude Color Style SpecColor TermSgr Ansi SpecAnsi.
 From RichGen Require Import AnsiFacts.
-From RichProofs Require Import TermSgrP AnsiP AnsiP2.
+From RichProofs Require Import TermSgrP AnsiP AnsiP2 AnsiP3 AnsiP4.
 
 (* ------------------------------------------------------------------ example inputs *)
 Definition ex_red : color := from_rgb 255 0 0.
@@ -171,6 +171,92 @@ Proof.
 Qed.
 Print Assumptions C03_ansi_cache_transparent_asis_refuted.
 
+(* (6b) cache histories: ONE style instance written by consoles of arbitrary configuration (colour
+        system or none, no_color, is_terminal, legacy_windows), interleaved with the derivations
+        without_color / copy() / update_link() / + taken from the instance in whatever memo state it
+        is (copy and update_link inherit `_ansi`, without_color and + start empty -- as the code does,
+        pinned by gen/AnsiFacts.v).  Repaired code: the memo is invisible ... *)
+Theorem C03_history_transparent : forall lid ops o1 o2,
+  memo_honest (fst o1) (snd o1) = true -> fst o1 = fst o2 -> snd o2 = None ->
+  Forall hop_repaired ops ->
+  run_hist true lid o1 ops = run_hist false lid o2 ops.
+Proof. exact hist_transparent. Qed.
+Print Assumptions C03_history_transparent.
+
+(* ... and every write satisfies every clause of the property for the style the object has at that
+   moment (`hist_ok_b`: stream meaning, no colour parameter under NO_COLOR, no escape without colour
+   system, no control function on a non-terminal) -- the checker the harness evaluates on rich's bytes *)
+Theorem C03_history_means : forall lid ops s m,
+  lid_ok lid = true -> style_wf s = true -> memo_honest s m = true -> forallb hop_full ops = true ->
+  exists outs, run_hist true lid (s, m) ops = Ok outs
+    /\ run_hist false lid (s, None) ops = Ok outs
+    /\ hist_ok_b lid s ops outs = true.
+Proof. exact hist_repaired_ok. Qed.
+Print Assumptions C03_history_means.
+
+Definition ex_hist : list hop :=
+  [HRender (ex_cfg (Some CS_TRUECOLOR) false true false true) (lit "warm");
+   HRender (ex_cfg (Some CS_TRUECOLOR) true true false true) (lit "hello");
+   HCopy; HUpdateLink (Some (lit "http://x"));
+   HRender (ex_cfg (Some CS_TRUECOLOR) true false false true) (lit "copy");
+   HAddRight ex_off; HWithoutColor;
+   HRender (ex_cfg (Some CS_STANDARD) false true false true) (lit "z")].
+Example C03_history_nonvacuous :
+  forallb hop_full ex_hist = true
+  /\ run_hist true (lit "0-0") (ex_all, None) ex_hist
+     = Ok [lit "" ++ [27] ++ lit "]8;id=0-0;http://h/p;q=1" ++ [27; 92; 27]
+             ++ lit "[1;2;3;4;5;6;7;8;9;21;51;52;53;38;2;10;200;30;48;5;200mwarm" ++ [27] ++ lit "[0m" ++ [27] ++ lit "]8;;" ++ [27; 92];
+           lit "" ++ [27] ++ lit "]8;id=0-0;http://h/p;q=1" ++ [27; 92; 27]
+             ++ lit "[1;2;3;4;5;6;7;8;9;21;51;52;53mhello" ++ [27] ++ lit "[0m" ++ [27] ++ lit "]8;;" ++ [27; 92];
+           lit "" ++ [27] ++ lit "]8;id=0-0;http://x" ++ [27; 92; 27]
+             ++ lit "[1;2;3;4;5;6;7;8;9;21;51;52;53mcopy" ++ [27] ++ lit "[0m" ++ [27] ++ lit "]8;;" ++ [27; 92];
+           lit "" ++ [27] ++ lit "]8;id=0-0;http://x" ++ [27; 92; 27]
+             ++ lit "[2;3;5;6;7;8;9;21;51;52;53mz" ++ [27] ++ lit "[0m" ++ [27] ++ lit "]8;;" ++ [27; 92]].
+Proof. vm_compute. repeat split. Qed.
+
+(* why without_color must start with an empty memo (seeded mutation C03-m1: without_color built on
+   copy()): the memo of the coloured source is not an honest memo of the colourless style, and
+   rendering the colourless style with it puts colour parameters into a NO_COLOR stream *)
+Example C03_without_color_must_reset_memo :
+  let s := style_make (Some (from_rgb 255 135 0)) (Some (from_ansi 4)) [Some true; None; None; Some true] None in
+  let k := ex_cfg (Some CS_TRUECOLOR) true true false true in
+  exists a, make_ansi_codes s CS_TRUECOLOR = Ok a
+    /\ memo_honest s (Some (CS_TRUECOLOR, a)) = true
+    /\ memo_honest (style_without_color s) (Some (CS_TRUECOLOR, a)) = false
+    /\ render_styled true (style_without_color s) (Some (CS_TRUECOLOR, a)) (lit "hello") (Some CS_TRUECOLOR) false []
+       = Ok ([27] ++ lit "[1;4;38;2;255;135;0;44mhello" ++ [27] ++ lit "[0m")
+    /\ no_color_params_b ([27] ++ lit "[1;4;38;2;255;135;0;44mhello" ++ [27] ++ lit "[0m") = false
+    /\ render_buffer k [mkASeg (lit "hello") (Some s) [] (Some (CS_TRUECOLOR, a)) false]
+       = Ok ([27] ++ lit "[1;4mhello" ++ [27] ++ lit "[0m").
+Proof. exists (lit "1;4;38;2;255;135;0;44"). vm_compute. repeat split. Qed.
+
+(* (6c) Segment.remove_color as coded keeps a dict {style: colourless copy}; a later segment whose
+        style matches a key (`same`: any relation implying Style.__eq__, e.g. equal hash and __eq__)
+        reuses the earlier copy OBJECT -- its link id, and its `_ansi` slot in whatever state this
+        console's earlier renders left it (`reuse_ok`).  That is invisible: the buffer renders exactly
+        as with a private `without_color` per segment, which is what `render_buffer` models.
+        (Link ids equal: the harness pins them; ids are not part of the meaning.) *)
+Theorem C03_remove_color_dict_transparent : forall k same reuse_memo lid segs,
+  (forall a b, same a b = true -> style_eqb a b = true) ->
+  reuse_ok k reuse_memo ->
+  Forall (fun g => a_lid g = lid) segs ->
+  render_segs k (remove_color_cached same reuse_memo [] segs) = render_segs k (map remove_color_seg segs).
+Proof.
+  intros k same reuse_memo lid segs SE RO U.
+  apply (remove_color_dict_transparent k same reuse_memo lid segs [] SE RO); [|exact U].
+  intros s0 cs clid [].
+Qed.
+Print Assumptions C03_remove_color_dict_transparent.
+
+Example C03_remove_color_dict_nonvacuous :     (* the second, equal style reuses the first copy: hash of the FIRST *)
+  let a := style_make (Some ex_red) None [Some true] None in
+  let b := style_add (style_make None None [Some true] None) (style_make (Some ex_red) None [] None) in
+  style_eqb a b = true
+  /\ map a_style (remove_color_cached style_eqb (fun _ => None) []
+                    [mkASeg (lit "x") (Some a) [] None false; mkASeg (lit "y") (Some b) [] None false])
+     = [Some (style_without_color a); Some (style_without_color a)].
+Proof. vm_compute. repeat split. Qed.
+
 (* (7) the per-style lemma behind (1): from the reset rendition with hyperlink l, the parameter
        list rich computes for style s on colour system sys puts the independent interpreter in
        exactly the state (attributes on, down-converted fg, bg, l) *)
@@ -192,4 +278,8 @@ Print Assumptions C03_style_parameters_mean_style.
 Example C03_memo_keyed_today : ANSI_MEMO_KEYED_BY_SYSTEM = true.
 Proof. reflexivity. Qed.
 Example C03_control_guard_today : RENDER_BUFFER_CONTROL_GUARD_FIRST = true.
+Proof. reflexivity. Qed.
+(* which derivation inherits the memo: copy and update_link do, without_color and + do not *)
+Example C03_memo_carrying_today :
+  (COPY_CARRIES_MEMO, UPDATE_LINK_CARRIES_MEMO, WITHOUT_COLOR_CARRIES_MEMO, ADD_CARRIES_MEMO) = (true, true, false, false).
 Proof. reflexivity. Qed.
